@@ -201,6 +201,19 @@ def templates(W, tier, rng):
             # the same cast applied to every boundary literal (folded by the compiler, specified identically)
             for li in range(len(lits(W, 'int'))):
                 yield dict(fam='cast', cast=cast, k='lit', li=li, pos='value', W=W)
+    # truthiness of a cast result in the three positions (a narrowing cast must truncate before the zero test)
+    for cast in ('int_byte', 'byte_int', 'int_byte_int', 'bool_byte', 'bool_int'):
+        for k in KINDS[:-1]:
+            for pos in ('value', 'branch', 'defeat', 'while', 'stored'):
+                yield dict(fam='casttruth', cast=cast, k=k, pos=pos, W=W)
+            for pos in ('branch', 'defeat'):
+                yield dict(fam='casttruth', cast=cast, k=k, pos=pos, W=W, negate=True)
+    # both operands literals (folded by the compiler; the specification is the same)
+    G = lits(W, 'int')
+    pairs = [(a, b) for a in range(len(G)) for b in range(len(G))]
+    for op in list(ARITH) + list(CMP):
+        for (a, b) in (rng.sample(pairs, 12) if quick else pairs):
+            yield dict(fam='litlit', op=op, la=a, lb=b, pos='value' if op in ARITH else rng.choice(['value', 'branch', 'defeat']), W=W)
     # short-circuit with a faulting right operand
     for op in ('and', 'or'):
         for pos in ('value', 'branch', 'defeat'):
@@ -379,6 +392,54 @@ def make(task):
             raise ValueError(c)
         src = program([l], body, extra)
         return src, (lambda T, inputs: observe(T, p2, [([], spec(T, l.value(T, inputs)))])), arrays
+    if fam == 'casttruth':
+        c = task['cast']
+        srct = {'int_byte': 'int', 'byte_int': 'byte', 'int_byte_int': 'int', 'bool_byte': 'int', 'bool_int': 'int'}[c]
+        l = opnd('A', srct, task['k'])
+        x = l.text
+        expr = {'int_byte': '%s is byte', 'byte_int': '%s is int', 'int_byte_int': '(%s is byte) is int', 'bool_byte': '(%s is bool) is byte', 'bool_int': '(%s is bool) is int'}[c] % x
+        val = {'int_byte': lambda T, v: T.low_byte_word(v), 'byte_int': lambda T, v: v, 'int_byte_int': lambda T, v: T.low_byte_word(v),
+               'bool_byte': lambda T, v: T.b2w(T.cmp('ne', v, 0)), 'bool_int': lambda T, v: T.b2w(T.cmp('ne', v, 0))}[c]
+        neg = task.get('negate', False)
+        cond = ('not (%s)' % expr) if neg else expr
+        pos = task['pos']
+        if pos in ('value', 'stored'):
+            body = use_text(pos, '(%s) is bool' % expr, True)
+        elif pos == 'defeat' and not neg:
+            body = use_text(pos, '(%s) is bool' % expr, True)       # !truth_is_defeat takes a bool: explicit cast
+        else:
+            body = use_text(pos, cond, True)                         # if / while conditions convert implicitly
+        src = program([l], body, helpers)
+
+        def oracle(T, inputs):
+            v = val(T, l.value(T, inputs))
+            t = T.b2w(T.cmp('ne', v, 0))
+            if neg:
+                t = T.arith('xor', t, 1)
+            return observe(T, pos, [([], t)])
+        return src, oracle, arrays
+    if fam == 'litlit':
+        G = lits(W, 'int')
+        la, lb = G[task['la']], G[task['lb']]
+        op = task['op']
+        l, r = Opnd('A', 'int', 'lit', la), Opnd('B', 'int', 'lit', lb)
+        x = Opnd('X', 'int', 'param')
+        isb = op in CMP
+        smin, smax = -(1 << (8 * W - 1)), (1 << (8 * W - 1)) - 1
+        exact = {'+': lambda a, b: a + b, '-': lambda a, b: a - b, '*': lambda a, b: a * b}.get(op)
+        in_range = exact is None or smin <= exact(la[1], lb[1]) <= smax
+        if not in_range or (op in ('/', '%') and lb[1] == 0) or (op == '/' and la[1] == smin and lb[1] == -1):
+            # folded intermediates outside the word are the C14 known finding; constant division by zero is a compile error
+            la, lb = ('3', 3), ('(-2)', -2)
+            l, r = Opnd('A', 'int', 'lit', la), Opnd('B', 'int', 'lit', lb)
+        expr = '%s %s %s' % (l.text, op, r.text)
+        src = program([x], use_text(task['pos'], expr, isb) + ' sleep(pX);', helpers)
+
+        def oracle(T, inputs):
+            lv, rv = l.value(T, inputs), r.value(T, inputs)
+            outs = spec_arith(T, ARITH[op], lv, rv) if op in ARITH else [([], T.b2w(T.cmp(CMP[op], lv, rv)))]
+            return [(c, ev[:-1] + (('sleep', inputs['pX'][0]),) + WIN, k) for (c, ev, k) in observe(T, task['pos'], outs)]
+        return src, oracle, arrays
     if fam == 'shortfault':
         a, b = Opnd('A', 'int', 'param'), Opnd('B', 'int', 'param')
         op = task['op']
